@@ -253,6 +253,8 @@ pub struct ExprError(#[from] pub(crate) ExprErrorKind);
 pub(crate) enum ExprErrorKind {
     #[error("Unexpected value {1} for signal {0}")]
     UnexpectedValueForSignal(String, OutputValue),
+    #[error("Variable {0} has no value")]
+    UnknownVariable(String),
     #[error("Function {0} is not implemented")]
     FunctionNotImplemented(&'static str),
     #[error("Division by zero")]
